@@ -8,8 +8,9 @@ _ETREE = ("hand-written model Build.v of etree v1.5.0 CreateAttr / CreateElement
 
 PROPS = {
     "C15": dict(
-        model_files=BUILD_MODEL,
+        model_files=BUILD_MODEL + ["XmlNameTables", "XmlTok", "P_XmlTok"],
         trusted_base=[KERNEL, GEN, HARNESS, _ETREE,
+                      "hand-written model XmlTok.v of the byte -> token -> tree step: encoding/xml (go1.24.0) Decoder.RawToken as etree v1.5.0 configures it (Strict, pass-through CharsetReader, no Entity map, no AutoClose) incl. isName with the two unicode range tables (XmlNameTables.v, transcribed from xml.go by tools/mkxmlnames.py; every table boundary is re-derived from the REAL decoder on each C09 run), entity expansion, CR / CRLF handling, the ]]> rule, UTF-8 and Char-range checks after expansion, <?xml?> version / encoding checks (procInst), directive scanning with quotes / nesting / comments; etree Element.readFrom (stack of open elements, end-tag check by (Space, Local), one CharData child per token - v1.5.0 does not merge -, attribute de-duplication unless PreserveDuplicateAttrs, Root() = first top-level element); token_view = what the Token() loop of xml.Unmarshal consumes (nesting check, stops at the end tag of the first element, NO CharsetReader). Nothing is outside_model. Tied to the real libraries by the xmltok stream (run under C09 and C20) (fixed cases, table boundaries, documents presented by the other streams, builder outputs, truncations / bit flips, grammar-based generator): token lists compared exactly, trees by node equality",
                       "hand-written model Build.v of buildAuthnRequest / buildLogoutRequest / buildLogoutResponse (build_request.go, build_logout_response.go); "
                       "the random request id and the clock instant are inputs",
                       "Time.v model of t.UTC().Format(issueInstantFormat) and of time.Parse(RFC3339) (TimeProofs.parse_format_utc_seconds_floor; differentially tested by timediff)",
@@ -17,7 +18,10 @@ PROPS = {
                       "character references (Escape.xml_eol_normalize / xml_unescape), which is what encoding/xml does to attribute values and character data; "
                       "the harness checks recovery with the real encoding/xml",
                       "the child-order lists of saml-schema-protocol-2.0.xsd are written by hand (P_Build.v section 6 and, independently, harness c15.go)"],
-        assumptions=["theorems are about the element trees and their serialisation by the model of etree; that /repo builds exactly these trees and etree writes exactly these bytes "
+        assumptions=["C15_written_document_reads_back: read_tree (etree_write t) = Ok (normalise t) through the REAL reader model (moved from oracle to model: tokenizer + etree tree building), for element trees of elements and character data "
+                     "whose names pass isName / nsname and whose values are valid UTF-8 in the XML Char range without U+000D (xml_wf; both premises shown necessary: C15_written_document_cr_refuted = F8, C15_lax_name_refuted); trees with comments / PIs / "
+                     "directives are outside the statement; for the AuthnRequest builder the premise is xml_wf of the built tree, for the two logout builders it is reduced to the values (wf_logout_request / wf_logout_response)",
+                     "theorems are about the element trees and their serialisation by the model of etree; that /repo builds exactly these trees and etree writes exactly these bytes "
                      "is measured by the correspondence run (bytes compared for every case), not proved",
                      "values are recovered exactly only for XML text (valid UTF-8, XML 1.0 Char range) without U+000D: C15_cr_not_preserved_refuted / known finding F8; "
                      "a reader that also applies XML 1.0 3.3.3 attribute-value normalisation turns TAB / LF in attribute-valued settings into spaces "
@@ -27,7 +31,7 @@ PROPS = {
     ),
     "C13": dict(
         model_files=BUILD_MODEL + ["Keys", "GenPrelude", "GenFuncs", "GenPreludeB", "GenBuild", "GenPreludeSign", "GenSign", "P_GenSign",
-                                   "Schema", "Types", "Decode", "Response", "Dsig"],
+                                   "Schema", "Types", "Decode", "Response", "Dsig", "CorrDiff", "Canon", "Signer"],
         trusted_base=[KERNEL, GEN, HARNESS, _ETREE,
                       "gen/unit_Sign.go: binding table of the translated SigningContext / Sign{AuthnRequest,LogoutRequest,LogoutResponse} / Build*Document wrappers / BuildAuthRequest "
                       "(receiver = GenPreludeSign.sign_cfg: Build.bcfg, Keys.keycfg and the cached context; *dsig.SigningContext = dctx with Keys.sign_ctx as key part; dsig.NewSigningContext / "
@@ -41,7 +45,17 @@ PROPS = {
                       "hand-written model Build.v of goxmldsig v1.5.0 (pinned in /repo/go.mod): NewDefaultSigningContext / NewSigningContext, SetSignatureMethod, getPublicKeyAlgorithm, "
                       "getCerts, the identifier tables of xml_constants.go, the element ConstructSignature returns, etreeutils.TransformExcC14n with SortedAttrs "
                       "(insertion sort: at most 12 attributes per element; the SortedAttrs case of two prefixed attributes with equal keys is approximated, the builders create none)",
-                      "oracles (inputs of the model, read back from the implementation's output): base64 DigestValue and SignatureValue, or the error of the key store / signer",
+                      "oracles of the case sets C13_signedNN (inputs of the model, read back from the implementation's output): base64 DigestValue and SignatureValue, or the error of the key store / signer",
+                      "MOVED FROM ORACLE TO MODEL (Signer.v, case sets C13_modelledNN): the computation of DigestValue and SignatureValue by goxmldsig v1.5.0 ConstructSignature -- "
+                      "ctx.digest(el) = hash of Canonicalize(el); the SignedInfo element; NSBuildParentContext(el) [el parentless: default context] .SubContext(el) .SubContext(sig) and "
+                      "NSDetatch(_, signedInfo) incl. sort.Sort; ctx.digest(detached) with the SAME canonicaliser object (prefix list included); signDigest; base64 -- with the canonicalisers "
+                      "answered by Canon.canon_model (hand-written model of canonicalize.go / etreeutils, corresponded byte for byte under C02 and again here). The question put to the "
+                      "canonicaliser is about the element AS THE CANONICALISER LEFT IT (for the exclusive canonicalisers, which rewrite their argument in place, this assumes TransformExcC14n "
+                      "finds nothing left to do on its own output; the bytes are compared with what the library hashed on every case). STILL ORACLES there: digest (hash function selected by "
+                      "ctx.Hash) and sign (crypto.Signer / rsa.SignPKCS1v15 over the hashed SignedInfo), answered from a DIGEST TABLE (every (hash, bytes, digest) the real library hashed while "
+                      "building and signing, captured by wrapping the crypto.Hash registry for the duration of the call) and a SIGNATURE TABLE ((key, SignatureMethod, bytes) -> SignatureValue of "
+                      "the real output, entered under the key whose public key verifies it; RSA PKCS#1 v1.5 recomputed and compared; ECDSA verified); a table miss changes the message bytes and "
+                      "is reported with the first differing byte of the question (Signer.signer_queries_val); the request id of a signing that FAILED after hashing is read from the hashed bytes",
                       "goxmldsig ValidationContext.Validate and crypto/rsa, crypto/ecdsa (used by the harness as the verifier), crypto/x509 certificate creation for the test keys",
                       "C13_sign_verify_*: the VERIFIER is the hand-written model Dsig.v of goxmldsig v1.5.0 ValidationContext.Validate (findSignature with the in-place replacement of SignedInfo, "
                       "NSDetatch + sort, canonicalPrep / TransformExcC14n at tree level, NSUnmarshalElement through the Schema.v interpreter of the types.Signature struct tags, verifyCertificate, "
@@ -63,8 +77,18 @@ PROPS = {
                      "(C13_sign_verify_unknown_canonicaliser_refuted) and names the canonicaliser the signer ran (false for an exclusive canonicaliser with a non-empty prefix list: "
                      "C13_sign_verify_exc_prefix_list_refuted = known finding exc-prefix-list); KeyInfo carries exactly ONE certificate (a field key store implementing X509ChainStore with a longer chain is "
                      "not covered), non-empty, inside its validity window at the verifier's clock; the verifier's store is that certificate",
-                     "C13_sign_verify_*: SignatureValue is taken to be a signature over canon of SignedInfo AS THE VERIFIER PREPARES IT (si_detached + si_prep); that the signer's own "
-                     "NSDetatch + Canonicalize of SignedInfo produces the same bytes (c14n 1.0 is prepared like c14n 1.1 by the verifier) is part of the canon oracle / correspondence run, not proved",
+                     "C13_sign_verify_accepts / _digest_decides / _tampered_digest_rejected (canon an arbitrary oracle): SignatureValue is taken to be a signature over canon of SignedInfo AS THE "
+                     "VERIFIER PREPARES IT (si_detached + si_prep). CLOSED for canon = Canon.canon_model by C13_signer_signs_what_verifier_checks (the signer's own NSDetatch + Canonicalize of "
+                     "SignedInfo gives exactly the bytes getCanonicalSignedInfo recomputes; c14n 1.0 is prepared like c14n 1.1 by the verifier) and C13_sign_verify_accepts_modelled (crypto pair := "
+                     "Signer.signer_crypto; premises: the four oracle laws, signable, known identifier naming the canonicaliser object, one embedded certificate valid at the verifier's clock, and "
+                     "the parser round trip at the two byte strings c14n_write(prepared SignedInfo) and canonical message). FALSE for an exclusive canonicaliser whose prefix list names a prefix in "
+                     "scope: C13_signer_signs_what_verifier_checks_exc_prefix_list_refuted (= known finding exc-prefix-list, now visible at the SignedInfo level as well)",
+                     "C13_digest_covers_whole_message: DigestValue = base64(digest(canon of the whole element handed to the signer, as the canonicaliser left it)) for every oracle. "
+                     "C13_digest_input_determines_values_partial is PARTIAL: injectivity of the canonical serialisation (C13_digest_canonical_bytes_determine_values: same shape, XML-text values, "
+                     "no adjacent character-data tokens) is proved, and lifted to the digest input on the PREPARED trees (Canon.canon_prep); that preparation never alters a value (it sorts / "
+                     "drops / moves attributes and drops comments) is not proved",
+                     "Signer.v models ConstructSignature for an element WITHOUT a parent (true of the three builders: the element is put into a document after signing); the public "
+                     "Sign{AuthnRequest,LogoutRequest,LogoutResponse} called by an application on an element that has a parent (inherited declarations, REC-xml-c14n ancestors) is outside the model",
                      "known finding F8 (cr-in-config): a configuration string containing U+000D breaks verification after re-parsing",
                      "known finding F10 (exc-prefix-list): an exclusive canonicaliser built with a non-empty prefix list signs with it but goxmldsig never declares the list; no verifier can verify",
                      "C13_embedded_cert_is_reported_cert assumes that a field key store implementing X509ChainStore returns a chain starting with its GetKeyPair certificate (true of dsig.TLSCertKeyStore)",
